@@ -137,6 +137,14 @@ def run(tier):
                 ck.violation({'kind': 'parse', 'inputs': {'grammar': c['ebnf'], 'text': c['texts'][t], 'start': c['start']},
                               'expected': so, 'observed': ir, 'why': why, 'spec': 'PegSem!Parse'},
                              key=c['ebnf'] + why.split(':')[0])
+    # code -> spec: executions of the real engine on a slice of the same universe, validated event by event against PegMachine
+    from ..pegcheck import trace_validate
+    tcases = []
+    step = 9 if tier == 'quick' else 2
+    for i, g in enumerate((gs + rnds)[seed % step::step]):
+        ts = [''.join(t) for t in texts][:: (3 if tier == 'quick' else 1)]
+        tcases.append({'ebnf': to_ebnf(g), 'g': g, 'cfg': make_cfg(chars_of(g, texts)), 'texts': ts})
+    trace_validate(ck, tcases, label='C01 universe')
     ck.cov['distinct_nontrivial'] = len(nontrivial)
     ck.cov['exhaustive'] = tier == 'thorough'
     ck.cov['rule'] = ('grammars: every expression with <=1 operator node over 9 leaves, '
